@@ -205,6 +205,26 @@ def bounded_native(seed=0, n=4):
                                 dt_max_in_options_afterwards=float(o_re.dt_max), largest_step=float(dts.max())))
     except Exception as e:  # noqa
         bad.append(dict(what=f"reused-options run raised {type(e).__name__}: {str(e)[:120]}"))
+    # an undriven solver built BEFORE another solver (with a field) on the same device, and solved afterwards, is still undriven
+    try:
+        from tdgl.solver.solver import TDGLSolver
+        with tempfile.TemporaryDirectory() as td:
+            lay_ = tdgl.Layer(coherence_length=0.5, london_lambda=2, thickness=0.1, gamma=1)
+            dev_ = tdgl.Device("two", layer=lay_, film=tdgl.Polygon("film", points=box(3, 2)), length_units="um")
+            dev_.make_mesh(max_edge_length=0.5, smooth=5)
+            o0 = tdgl.SolverOptions(solve_time=0.5, dt_init=1e-3, dt_max=2e-2, output_file=os.path.join(td, "zero.h5"), save_every=10, progress_interval=0)
+            o1 = tdgl.SolverOptions(solve_time=0.1, dt_init=1e-3, dt_max=2e-2, output_file=os.path.join(td, "field.h5"), save_every=10, progress_interval=0)
+            s_zero = TDGLSolver(dev_, o0)
+            TDGLSolver(dev_, o1, applied_vector_potential=0.8)          # only constructed
+            sol0 = s_zero.solve()
+            runs += 1
+            d_ = sol0.tdgl_data
+            dev_all = max(float(np.abs(np.abs(d_.psi) - 1).max()), float(np.abs(d_.mu).max()), float(np.abs(d_.supercurrent).max()), float(np.abs(d_.normal_current).max()))
+            if dev_all > 1e-9:
+                bad.append(dict(what="an undriven solver leaves the uniform state after ANOTHER solver with an applied field was constructed on the same device",
+                                max_dev_any_field=dev_all, last_dt=float(sol0.dynamics.dt[-1])))
+    except Exception as e:  # noqa
+        bad.append(dict(what=f"interleaved solvers raised {type(e).__name__}: {str(e)[:120]}"))
     logging.disable(logging.NOTSET)
     out = dict(confirmed=bool(bad), kind="bounded", evaluations=runs, failing_new=len(bad), failing_known=len(known), samples=(bad + known)[:3],
                bound=f"{n} random devices x screening on/off at half the explicit-Euler stability limit (must be bit-exact) + 2 runs far above it (known finding), seed {seed}")
